@@ -570,3 +570,70 @@ func ruleFilterKeyNotAField(c *eng.Ctx) {
 	}
 	c.Floor(rule, n, 1)
 }
+
+// ruleArrayKindCoverage: every inline-array aggregate understands every Go representation an array
+// field can have. The representations are tabled (5 element kinds × {plain, Option}); the table is
+// kept aligned with the client package's FieldKind_*_ARRAY constants (one per representation).
+// _sum/_max/_min must cover the numeric ones, _count (its filter/limit path) all of them.
+func ruleArrayKindCoverage(c *eng.Ctx) {
+	const rule = "ARRAY-KIND-COVERAGE"
+	numeric := []string{"[]int64", "[]immutable.Option[int64]", "[]float64", "[]immutable.Option[float64]", "[]float32", "[]immutable.Option[float32]"}
+	all := append([]string{"[]bool", "[]immutable.Option[bool]", "[]string", "[]immutable.Option[string]"}, numeric...)
+	// alignment with the kinds
+	if pk := c.P.Pkg("client"); pk != nil {
+		n := 0
+		for _, name := range pk.Types.Scope().Names() {
+			if strings.HasPrefix(name, "FieldKind_") && strings.HasSuffix(name, "_ARRAY") {
+				n++
+			}
+		}
+		c.Check(n == len(all), rule, "table:array-kinds", token.NoPos, fmt.Sprintf("%d array field kinds, %d tabled representations", n, len(all)),
+			fmt.Sprintf("the client package defines %d array field kinds but %d representations are tabled: a new array kind needs a decision for every aggregate", n, len(all)))
+	} else {
+		c.Unknown(rule, "anchor:client", token.NoPos, "anchor-unresolved")
+	}
+	for _, spec := range []struct {
+		fn   string
+		need []string
+	}{
+		{"internal/planner.(*sumNode).Next", numeric},
+		{"internal/planner.(*maxNode).Next", numeric},
+		{"internal/planner.(*minNode).Next", numeric},
+		{"internal/planner.(*countNode).Next", all},
+	} {
+		fi := c.Anchor(rule, spec.fn)
+		if fi == nil {
+			continue
+		}
+		// the type switch that has a []core.Doc case
+		have := map[string]bool{}
+		found := false
+		ast.Inspect(fi.Decl.Body, func(m ast.Node) bool {
+			ts, ok := m.(*ast.TypeSwitchStmt)
+			if !ok {
+				return true
+			}
+			cases := map[string]bool{}
+			for _, cl := range ts.Body.List {
+				for _, e := range cl.(*ast.CaseClause).List {
+					cases[eng.ExprStr(e)] = true
+				}
+			}
+			if cases["[]core.Doc"] {
+				found = true
+				for k := range cases {
+					have[k] = true
+				}
+			}
+			return true
+		})
+		if !found {
+			c.Unknown(rule, shortFn(fi)+":array-switch", fi.Decl.Pos(), "the type switch over the aggregated collection was not found")
+			continue
+		}
+		for _, r := range spec.need {
+			c.Check(have[r], rule, shortFn(fi)+":handles("+r+")", fi.Decl.Pos(), "representation handled",
+				"the aggregate has no case for "+r+": over a field of that array kind it answers null / 0 instead of aggregating the items")
+		}
+	}
+}
